@@ -613,6 +613,14 @@ upipe_h265f_stream_parse_short_term_ref_pic_set(struct ubuf_block_stream *s,
             }
         }
 
+        /* The derived set must fit in the arrays, like an explicit one. */
+        uint32_t num_pocs = use_delta_flag[num_delta_pocs] ? 1 : 0;
+        for (int j = 0; j < num_delta_pocs; j++)
+            if (use_delta_flag[j] && delta_poc[ref_idx][j] + delta_rps != 0)
+                num_pocs++;
+        if (num_pocs > max_dec_pic_buffering_1)
+            return false;
+
         int i;
         int *delta_poc_s0 = delta_poc[idx];
         bool *used_by_curr_pic_s0 = used_by_curr_pic[idx];
